@@ -63,6 +63,12 @@ func RunHarness(p *Program, h *Harness, cfg runCfg) (res *Result) {
 	if h.Item.Options["frame"] == "off" {
 		x.frameOff = true
 	}
+	if a := h.Item.Options["assume"]; a != "" {
+		x.assumeFns = map[string]bool{}
+		for _, f := range strings.Split(a, ",") {
+			x.assumeFns[strings.TrimSpace(f)] = true
+		}
+	}
 	if h.Item.Options["unroll"] != "" {
 		x.unroll = true
 		res.Bounded = true
